@@ -7,6 +7,9 @@ from gen import hard
 ENZ = ["BsaI", "BsmBI", "EcoRI", "PleI", "BbsI", "NotI", "AarI", "TaqI", "AluI"]
 
 
+REGEXES = ["A{4}", "A{5,}", "T{6}", "(GC){3}", "[AT]{6}", "G{3}C{2}", "(AT){2}A", "C{4,6}", "[GC]{7}", "A{8}"]
+
+
 def rand_pattern(rng):
     r = rng.random()
     if r < 0.5:
@@ -38,12 +41,25 @@ def rand_soft(rng, seq, role="constraint", allow=None):
     whole = rng.random() < 0.5
     if k == "pattern":
         return dict(kind="pattern", pattern=rand_pattern(rng), location=None if whole else rand_loc(rng, n, 3))
+    if k == "regex":
+        # a regular expression given as a plain string / SequencePattern without a size: matches can be much longer
+        # than the text of the expression
+        return dict(kind="regex", expr=rng.choice(REGEXES), location=None if whole else rand_loc(rng, n, 4),
+                    wrapped=rng.random() < 0.5)
     if k == "gcwin":
         w = rng.choice([4, 5, 8, 10])
         w = min(w, n)
         lo = rng.choice([0.0, 0.25, 0.3, 0.4])
         hi = rng.choice([0.6, 0.7, 0.75, 1.0])
         loc = None if whole else rand_loc(rng, n, w, strands=(1, 0, -1))
+        if rng.random() < 0.08:
+            # a window longer than the region (or the sequence): there is no window to check
+            if whole or w < 3:
+                w = n + rng.randint(1, 20)
+            else:
+                L = rng.randint(1, w - 1)
+                a = rng.randint(0, n - L)
+                loc = [a, a + L, rng.choice([1, 0])]
         return dict(kind="gcwin", mini=lo, maxi=hi, window=w, location=loc)
     if k == "stop":
         if n < 3:
@@ -83,6 +99,13 @@ def rand_soft(rng, seq, role="constraint", allow=None):
 
 
 def rand_objective(rng, seq):
+    d = _rand_objective(rng, seq)
+    if rng.random() < 0.12:
+        d["passive"] = True
+    return d
+
+
+def _rand_objective(rng, seq):
     n = len(seq)
     k = rng.choice(["cai", "cai", "keep", "change", "gc", "pattern", "user", "kmers_obj", "sequence_obj", "cds_obj"])
     boost = rng.choice([0, 0.5, 1, 1, 2, 3])
@@ -112,13 +135,22 @@ def rand_objective(rng, seq):
                     amount_percent=rng.choice([None, None, 50]), boost=boost)
     if k == "gc":
         w = min(rng.choice([4, 5, 8]), n)
-        return dict(kind="gc_obj", target=rng.choice([0.25, 0.5, 0.75]), window=w, boost=boost)
+        d = dict(kind="gc_obj", target=rng.choice([0.25, 0.5, 0.75]), window=w, boost=boost)
+        if rng.random() < 0.4 and n > w:
+            # restricted to a region (often one that does not start at 0)
+            d["location"] = rand_loc(rng, n, w, strands=(1, 0))
+        return d
     if k == "pattern":
         return dict(kind="pattern_obj", pattern=rand_pattern(rng), boost=boost)
     if k == "kmers_obj":
         return dict(kind="kmers_obj", k=rng.choice([3, 4]), boost=boost)
-    return dict(kind="user_obj", motif=rng.choice(["AA", "GC", "TA"]), best=rng.choice([None, 0]), boost=boost,
-                location=None)
+    d = dict(kind="user_obj", motif=rng.choice(["AA", "GC", "TA"]), best=rng.choice([None, 0]), boost=boost,
+             location=None)
+    if rng.random() < 0.35:
+        # an objective that rewards occurrences (positive scores) and declares no best possible score
+        d["reward"] = True
+        d["best"] = None
+    return d
 
 
 def make_user_class():
@@ -134,7 +166,8 @@ def make_user_class():
         best_possible_score = 0
 
         def __init__(self, motif, location=None, shrink=0, localized_none=False, boost=1.0, priority=0, best=0,
-                     fault_calls=()):
+                     fault_calls=(), sign=-1):
+            self.sign = sign
             self.motif = motif
             self.location = Location.from_data(location)
             self.shrink = shrink
@@ -157,7 +190,7 @@ def make_user_class():
             k = len(self.motif)
             hits = [i for i in range(len(s) - k + 1) if s[i:i + k] == self.motif]
             locs = [Location(self.location.start + i, self.location.start + i + k) for i in hits]
-            return SpecEvaluation(self, problem, score=-len(hits), locations=locs)
+            return SpecEvaluation(self, problem, score=self.sign * len(hits), locations=locs)
 
         def localized(self, location, problem=None, with_righthand=True):
             ov = self.location.overlap_region(location)
@@ -208,12 +241,22 @@ def user_classes():
 
 
 def build_spec(d):
+    spec = _build_spec(d)
+    if d.get("passive"):
+        # an objective that is scored and reported but never optimized for itself
+        spec = spec.as_passive_objective()
+    return spec
+
+
+def _build_spec(d):
     import dnachisel as dc
     k = d["kind"]
-    loc = tuple(d["location"]) if d.get("location") else None
+    loc = hard.mkloc(tuple(d["location"])) if d.get("location") else None
     boost = d.get("boost", 1.0)
     if k in ("keep", "keep_idx", "cds", "rare", "sequence", "choice", "change", "change_idx"):
         return hard.build_constraint(d)
+    if k == "regex":
+        return dc.AvoidPattern(dc.SequencePattern(d["expr"]) if d.get("wrapped") else d["expr"], location=loc)
     if k == "pattern":
         return dc.AvoidPattern(d["pattern"], location=loc)
     if k == "pattern_obj":
@@ -221,7 +264,7 @@ def build_spec(d):
     if k == "gcwin":
         return dc.EnforceGCContent(mini=d["mini"], maxi=d["maxi"], window=d["window"], location=loc)
     if k == "gc_obj":
-        return dc.EnforceGCContent(target=d["target"], window=d["window"], boost=boost)
+        return dc.EnforceGCContent(target=d["target"], window=d["window"], boost=boost, location=loc)
     if k == "stop":
         return dc.AvoidStopCodons(genetic_table=d["table"], location=loc)
     if k == "kmers":
@@ -273,7 +316,8 @@ def build_spec(d):
         elif d.get("no_rh"):
             c = cls["no_rh"]
         return c(d["motif"], location=loc, shrink=d.get("shrink", 0), localized_none=d.get("localized_none", False),
-                 boost=boost, priority=d.get("priority", 0), best=d.get("best", 0), fault_calls=d.get("fault_calls", ()))
+                 boost=boost, priority=d.get("priority", 0), best=d.get("best", 0), fault_calls=d.get("fault_calls", ()),
+                 sign=1 if d.get("reward") else -1)
     raise ValueError(k)
 
 
@@ -320,7 +364,7 @@ def rand_small_problem(rng, objectives=True, soft=None):
         cons.append(dict(kind="keep_idx", indices=frozen))
     if rng.random() < 0.3 and n >= 3:
         cons.append(hard.rand_hard_constraint(rng, seq, ["cds", "sequence", "choice"]))
-    cons += [rand_soft(rng, seq, allow=soft or ["pattern", "pattern", "gcwin", "stop", "user", "terminal", "kmers"])
+    cons += [rand_soft(rng, seq, allow=soft or ["pattern", "pattern", "gcwin", "stop", "user", "terminal", "kmers", "regex"])
              for _ in range(rng.randint(0, 3))]
     objs = [rand_objective(rng, seq) for _ in range(rng.randint(0, 3))] if objectives else []
     sett = rand_settings(rng)
